@@ -2,6 +2,7 @@ import SqfModel
 import SqfModel.Generated.Registry
 import SqfModel.VM.Sched
 import SqfModel.Config
+import SqfModel.Api
 import Driver.Proto
 import Std.Data.HashMap
 /-!
@@ -223,6 +224,72 @@ def verbCfg (f : List (List Nat)) : List Nat :=
     | none => str "bad-query")
   str "load=" ++ flags ++ str "/" ++ renderCodes (visible diags) ++ (outs.foldl (fun acc o => acc ++ str " ; " ++ o) [])
 
+/-! ### api: histories of C API calls -/
+
+def containsSub (hay needle : List Nat) : Bool :=
+  match hay with
+  | [] => needle.isEmpty
+  | _ :: rest => hay.take needle.length == needle || containsSub rest needle
+
+/-- the preprocessor as far as the API histories exercise it: texts with an unknown directive are
+    rejected, every other generated text passes through unchanged (as far as the parser can tell) -/
+def ppModel (t : List Nat) : Option (List Nat) := if containsSub t (str "#bogus") then none else some t
+
+def renderInt (i : Int) : List Nat := if i < 0 then [45] ++ natStr i.natAbs else natStr i.toNat
+
+def renderDeliveries (ds : List Sqf.Api.Delivery) : List Nat :=
+  ds.flatMap (fun d => str "[" ++ renderInt d.level ++ str ":" ++ natStr d.user ++ str ":" ++ natStr d.call ++ str "]")
+
+structure ApiState where
+  insts : List (Option Sqf.Api.Inst) := [none, none, none, none]
+  out : List (List Nat) := []
+
+def verbApi (e : Env) (f : List (List Nat)) : List Nat :=
+  let ops := (splitOn 10 (f.headD [])).filter (fun l => !l.isEmpty)
+  let cfgAst : List Nat → Option (List Sqf.Cfg.Node) := fun ser =>
+    let toks := (splitOn 32 ser).filter (fun t => !t.isEmpty)
+    if toks == [str "!"] then none else (parseNodes toks []).map (·.1)
+  let st := ops.foldl (fun (st : ApiState) line =>
+    let t := splitOn 32 line
+    let op := t.headD []
+    let slot := (natOfBytes ((t[1]?).getD [])) % 4
+    let cur := (st.insts[slot]?).getD none
+    let seen := match cur with | some i => i.delivered.length | none => 0
+    let emit (st : ApiState) (ni : Option Sqf.Api.Inst) (txt : List Nat) : ApiState :=
+      let logs := match ni with | some i => renderDeliveries (i.delivered.drop seen) | none => []
+      { insts := st.insts.set slot ni, out := st.out ++ [txt ++ logs] }
+    if op == str "new" then
+      let env : Sqf.Api.Env := { parse := assemble e.real, pp := ppModel, parseCfg := fun _ => none }
+      emit st (some (Sqf.Api.create env (natOfBytes ((t[3]?).getD [])) (natOfBytes ((t[2]?).getD [])))) (str "ok")
+    else if op == str "call" then
+      match cur with
+      | none => emit st none (str "rc=-1")
+      | some i =>
+        let env : Sqf.Api.Env := { parse := assemble e.real, pp := ppModel, parseCfg := fun _ => none }
+        let ty := (((t[3]?).getD []).headD 0)
+        let r := Sqf.Api.call env i (natOfBytes ((t[2]?).getD [])) ty (unhexBytes ((t[4]?).getD []))
+        emit st (some r.1) (str "rc=" ++ renderInt r.2)
+    else if op == str "cfg" then
+      match cur with
+      | none => emit st none (str "rc=-1")
+      | some i =>
+        let ast := unhexBytes ((t[3]?).getD [])
+        let env : Sqf.Api.Env := { parse := assemble e.real, pp := ppModel, parseCfg := fun _ => cfgAst ast }
+        let r := Sqf.Api.loadConfig env i (unhexBytes ((t[2]?).getD []))
+        emit st (some r.1) (str "rc=" ++ renderInt r.2)
+    else if op == str "status" then
+      match cur with
+      | none => emit st none (str "rc=-1")
+      | some i => emit st (some i) (str "rc=" ++ renderInt (Sqf.Api.status i))
+    else if op == str "del" then
+      { insts := st.insts.set slot none, out := st.out ++ [str "ok"] }
+    else if op == str "bad" then
+      { st with out := st.out ++ [str "rc=-1"] }
+    else { st with out := st.out ++ [str "bad-op"] }) ({} : ApiState)
+  match st.out with
+  | [] => []
+  | o :: rest => rest.foldl (fun acc x => acc ++ str " ; " ++ x) o
+
 def handle (e : Env) (verb : String) (f : List (List Nat)) : List Nat :=
   if verb == "asm" then verbAsm e f
   else if verb == "lex" then verbLex f
@@ -231,6 +298,7 @@ def handle (e : Env) (verb : String) (f : List (List Nat)) : List Nat :=
   else if verb == "start" then verbStart e f
   else if verb == "eq" then verbEq e f
   else if verb == "cfg" then verbCfg f
+  else if verb == "api" then verbApi e f
   else str "bad-verb"
 
 partial def loop (e : Env) (h : IO.FS.Stream) (out : IO.FS.Stream) : IO Unit := do
